@@ -13,7 +13,7 @@ RESERVED = re.compile(r'^(data_.*|save_.*|loop_|stop_|global_)$', re.I)
 
 ATOMS = ['a', '1.5(3)', '', 'a b', "it's", 'x"y', "''", ';', 'a;b', '\\', 'a\\', '[a]', '{a}', '#x', '_x', '$x', 'data_x', 'loop_', 'stop_', 'global_', 'save_',
          '\u00e9', '\ud7ff', '\ue000', '\ufffd', '\U0001F600', 'a\nb', 'a\n;b', 'a\\\nb', ' lead', 'trail ', "a'''b", 'a"""b', '?', '.', 'a\n', '\nb', 'a\n\nb', "'", '"',
-         'q\\b\nr\\_', 'a' * 2040, 'a' * 2047, 'b\n' + 'a' * 2048 + '\nc']
+         'q\\b\nr\\_', 'ab\\cd\nabxy\nab', 'a' * 2040, 'a' * 2047, 'b\n' + 'a' * 2048 + '\nc']
 SPECIAL = [('unk',), ('na',)]
 
 
@@ -344,6 +344,32 @@ def option_docs():
     return out
 
 
+def boundary_docs():
+    """layout must not matter: the same multi-line value (it has an empty line) as a text field and as a triple-quoted string, under
+    each line-terminator convention, behind a comment sized so that the first terminator inside the value falls on every byte offset
+    around the first three multiples of the 4096-byte read size (a CR LF pair is then cut in two by the read, or begins the next)"""
+    out = []
+    val = 'line1\nline2\n\nline4'
+    exp = {'b': {'loops': [[('_a', '_z'), [(('s', val, 1), ('s', 'end', 0))]]], 'frames': {}}}
+    for eol in ('\n', '\r\n', '\r'):
+        for style in ('text', 'triple'):
+            opener = ('_a' + eol + ';') if style == 'text' else "_a '''"
+            closer = (eol + ';') if style == 'text' else "'''"
+            for base in (4096, 8192, 12288):
+                for target in range(base - 6, base + 5):
+                    fixed = '#\\#CIF_2.0' + eol + 'data_b' + eol + opener + 'line1'
+                    k = target - len(fixed)
+                    pad = ''
+                    unit = 1001 + len(eol)
+                    while k - len(pad) >= unit + 1 + len(eol):
+                        pad += '#' + 'c' * 1000 + eol
+                    pad += '#' + 'c' * (k - len(pad) - 1 - len(eol)) + eol
+                    text = '#\\#CIF_2.0' + eol + pad + 'data_b' + eol + opener + val.replace('\n', eol) + closer + eol + '_z end' + eol
+                    assert text.index('line1') + 5 == target
+                    out.append((text, '', exp))
+    return out
+
+
 def work_options(chunk):
     ex = worker_exec('fast')
     out = []
@@ -533,6 +559,9 @@ def main():
             rep.violation({'kind': kind, 'structure': 'column', 'doc': text[:60]}, {'structure': 'column', 'document': text[:3000], 'message': msg})
     od = option_docs()
     summary['options'] = {'documents': len(od)}
+    bd = boundary_docs()
+    summary['read-boundary layouts'] = {'documents': len(bd)}
+    od = od + bd
     for res in pmap(work_options, chunked(od, 40)):
         if isinstance(res, dict):
             rep.violation({'kind': 'executor'}, res)
@@ -544,7 +573,7 @@ def main():
             rep.violation({'kind': kind, 'structure': struct, 'doc': text[:60]}, {'structure': struct, 'document': text[:3000], 'message': msg})
     return rep.finish({'evaluations': total, 'distinct_nontrivial': nontriv,
                        'rule': 'every document with 2 value tokens: ordered pairs over all (atom, presentation) tokens (%d atoms; presentations bare, single/double quoted, triple quoted, text field, folded text field with cuts, prefixed, prefixed+folded as admissible) '
-                               'in structures %s (CIF 1.1: %s), separators %r (full cross product for scalar pairs and loops), with and without the version comment; thorough: also every ordered TRIPLE over the reduced token set (all presentations of 14 core atoms) in a loop row, a loop column and a list; content known by construction from the generator; plus the names family: block code, frame code, data name, looped name and table key carrying each of %d name characters (delimiters that are ordinary inside a name, first / last code point of every permitted range, characters that grow under normalisation) at the start, in the middle, at the end and doubled. Columns family: every ordered pair (and triple, for 8 of them) of 14 values of all kinds - unknown, n/a, strings, number, lists, tables, nested, text field - in consecutive packets of one loop column. Options family: folded / prefixed / folded+prefixed text fields under all 9 combinations of line_folding_modifier and text_prefixing_modifier in both dialects, where cif.h states the outcome. '
+                               'in structures %s (CIF 1.1: %s), separators %r (full cross product for scalar pairs and loops), with and without the version comment; thorough: also every ordered TRIPLE over the reduced token set (all presentations of 14 core atoms) in a loop row, a loop column and a list; content known by construction from the generator; plus the names family: block code, frame code, data name, looped name and table key carrying each of %d name characters (delimiters that are ordinary inside a name, first / last code point of every permitted range, characters that grow under normalisation) at the start, in the middle, at the end and doubled. Columns family: every ordered pair (and triple, for 8 of them) of 14 values of all kinds - unknown, n/a, strings, number, lists, tables, nested, text field - in consecutive packets of one loop column. Options family: folded / prefixed / folded+prefixed text fields under all 9 combinations of line_folding_modifier and text_prefixing_modifier in both dialects, where cif.h states the outcome. Read-boundary layouts: one multi-line value as text field and triple-quoted string under LF / CR LF / CR with its first terminator at every byte offset within -6..+4 of 4096, 8192 and 12288. '
                                'non-trivial = distinct ordered token pairs' % (len(ATOMS), STRUCTS2, STRUCTS1, SEPS, len(NAME_CHARS2)),
                        'samples': ["#\\#CIF_2.0\ndata_b _a 'it''s'...", 'loop_ _a <text field> <triple quoted>'], 'dialects': summary, 'exhaustive': True},
                       ['the generator (mc/c01.py: presentations(), fold_encode(), build_doc()) is the independent statement of the grammar',
